@@ -56,6 +56,8 @@ ASSUMPTIONS = [
 
 UNITS = ["ill_u", "ill_r", "ill_e", "img", "stripe", "chg", "dc", "imgc"]
 LENGTH = 6.0
+# an irregular grid (readout times that are not multiples of anything convenient); the last point closes the interval
+IRREGULAR = [0.123456789, 1.000000123, 2.718281828, 3.141592653, 4.4444444441, 6.0]
 P = "pyxel.models."
 
 
@@ -91,9 +93,21 @@ def enumerate_cases(tier, seed):
                 for si, start in enumerate((0.0, 0.5)):
                     if not thorough and (ci + pi + gi + si) % 2 and len(units) > 1:
                         continue            # quick: pairs get half of the palette x geometry x start product
-                    scales = [1, 2, 3] if len(units) == 1 and palette == "dyadic" else [1]
+                    # (2**-20: a microsecond-scale exposure - the law of proportionality has no preferred time unit)
+                    scales = [1, 2, 3, 2.0 ** -20] if len(units) == 1 and palette == "dyadic" else [1]
                     cases.append({"fam": "G6", "units": units, "palette": palette, "geo": geo, "start": start, "G": 6,
                                   "chunk": [0, 1], "modes": ["nd", "d"], "scales": scales})
+    # the other detector types (their own reset / empty code paths)
+    for kind in ("cmos", "mkid", "apd"):
+        for units in (["ill_u"], ["chg"], ["ill_u", "chg"]):
+            cases.append({"fam": "G6d", "units": units, "palette": "dyadic", "geo": [2, 3], "start": 0.5, "G": 6,
+                          "chunk": [0, 1], "modes": ["nd", "d"], "scales": [1], "det": kind})
+    # the same with readouts on an irregular grid
+    for units in [[u] for u in UNITS] + ([list(UNITS)] if thorough else []):
+        for palette in ("dyadic", "nondyadic"):
+            geo = [2, 4] if "stripe" in units else [2, 3]
+            cases.append({"fam": "G6i", "units": units, "palette": palette, "geo": geo, "start": 0.5, "G": 6,
+                          "chunk": [0, 1], "modes": ["nd", "d"], "scales": [1], "grid": "irregular"})
     if thorough:
         nch = 8
         for units in [[u] for u in UNITS] + [list(UNITS)]:
@@ -124,6 +138,7 @@ def expected_size(tier, seed):
         n += 8 * (4 * 2 + 5 * 1)
     else:
         n += 1
+    n += 2 * (len(UNITS) + (1 if thorough else 0)) + 9
     return n
 
 
@@ -182,13 +197,13 @@ def build_pipeline(units, palette, geo, tmp):
     return groups, (300.0 if dy else 280.0)
 
 
-def run_schedule(units, palette, geo, start, times, nd, tmp, via="ctor"):
+def run_schedule(units, palette, geo, start, times, nd, tmp, via="ctor", kind="ccd"):
     """one real exposure -> pixel cube (time, y, x) and the time labels.
     via: how the schedule reaches the Readout - constructor, the `times` setter of an existing readout, or replace()"""
     import pyxel
 
     groups, temperature = build_pipeline(units, palette, geo, tmp)
-    det = mk.detector("ccd", geo[0], geo[1], temperature=temperature)
+    det = mk.detector(kind, geo[0], geo[1], temperature=temperature)
     if via in ("start_setter", "deprecated"):
         # the start time reaches the readout through its setter, after construction
         exp = mk.exposure(times, nd, start - 1.0)
@@ -238,6 +253,8 @@ def run_case(case):
 
     def bad(code, what, **extra):
         key = {"code": code, "units": ukey, "palette": palette}
+        if case.get("det", "ccd") != "ccd":
+            key["det"] = case["det"]
         key.update(extra)
         viol.append((key, f"{what}; models={units} palette={palette} geometry={geo} start={start} grid={G}"))
 
@@ -246,7 +263,7 @@ def run_case(case):
     try:
         end = start + LENGTH
         try:
-            ref, _ = run_schedule(units, palette, geo, start, [end], True, tmp)
+            ref, _ = run_schedule(units, palette, geo, start, [end], True, tmp, kind=case.get("det", "ccd"))
             runs += 1
         except Exception as e:  # noqa: BLE001
             bad("raised", f"single-readout exposure times=[{end}] raised {type(e).__name__}: {str(e)[:300]}", mode="single")
@@ -260,7 +277,10 @@ def run_case(case):
         seen = set()
         for mask, idx in partitions(G, case["chunk"]):
             for scale in case["scales"]:
-                times = [start + scale * step * k for k in idx]
+                if case.get("grid") == "irregular":
+                    times = [start + scale * IRREGULAR[k - 1] for k in idx]
+                else:
+                    times = [start + scale * step * k for k in idx]
                 for mode in case["modes"]:
                     if mode == "nd" and scale != 1:
                         continue
@@ -268,7 +288,8 @@ def run_case(case):
                     try:
                         # the way the schedule is handed over rotates with the partition (all three must be equivalent)
                         cube, labels = run_schedule(units, palette, geo, start, times, mode == "nd", tmp,
-                                                    via=("ctor", "setter", "replace", "start_setter", "deprecated")[mask % 5])
+                                                    via=("ctor", "setter", "replace", "start_setter", "deprecated")[mask % 5],
+                                                    kind=case.get("det", "ccd"))
                         runs += 1
                     except Exception as e:  # noqa: BLE001
                         if ("raised",) + code_done not in seen:
